@@ -506,25 +506,25 @@ def run(chk, facts, tier, only=None):
         n = 0
         for row in arm_rows(m):
             hs = ti_heads(row)
-            if len(hs) != 1 or is_panic_expr(row["body"]) or hs[0] == "Var":
+            if not hs or is_panic_expr(row["body"]) or hs == ["Var"]:
                 continue
-            X = hs[0]
-            leaves = [untry(l) for l in value_leaves(row["body"])]
-            ctors = set()
-            for lf in leaves:
-                p = None
-                if lf.get("k") == "call":
-                    p = callee(lf)
-                elif lf.get("k") == "path":
-                    p = (lf.get("res") or {}).get("path")
-                ctors.add(p[len(IV):] if p and p.startswith(IV) else f"?{show(lf)[:40]}")
-            want = {"Opt": {"None", "Opt"}}.get(X, {X})
-            tyok = all((X in (mx.value_ty.get(c) or [])) if c in mx.value_ty else (c == X) for c in ctors)
-            n += 1
-            chk.expect(ctors == want and tyok, f"ctor:{X}",
-                       f"RandState::any: for TypeInner::{X} the generated value is built with IDLValue::{sorted(ctors)}; expected "
-                       f"{sorted(want)} (value_ty of these: {[mx.value_ty.get(c) for c in sorted(ctors)]})",
-                       ok_detail=f"{X} -> IDLValue::{sorted(ctors)}")
+            for X in hs:      # an or-pattern row produces the same value for each of its heads: every head is judged
+                leaves = [untry(l) for l in value_leaves(row["body"])]
+                ctors = set()
+                for lf in leaves:
+                    p = None
+                    if lf.get("k") == "call":
+                        p = callee(lf)
+                    elif lf.get("k") == "path":
+                        p = (lf.get("res") or {}).get("path")
+                    ctors.add(p[len(IV):] if p and p.startswith(IV) else f"?{show(lf)[:40]}")
+                want = {"Opt": {"None", "Opt"}}.get(X, {X})
+                tyok = all((X in (mx.value_ty.get(c) or [])) if c in mx.value_ty else (c == X) for c in ctors)
+                n += 1
+                chk.expect(ctors == want and tyok, f"ctor:{X}",
+                           f"RandState::any: for TypeInner::{X} the generated value is built with IDLValue::{sorted(ctors)}; expected "
+                           f"{sorted(want)} (value_ty of these: {[mx.value_ty.get(c) for c in sorted(ctors)]})",
+                           ok_detail=f"{X} -> IDLValue::{sorted(ctors)}")
         chk.floor("constructor rows of RandState::any", n, 22)
 
         def field_of(pat, e, depth=0):
